@@ -794,35 +794,44 @@ def classify_optimum(info, tres, bres, to_t, to_b, shift, ctol):
 
 def asym_inner_minimisation_stopped_short(tb, names_t, ae, bad_rows, info):
     """explain-check for the open finding KEY_SCIPY_MIN in the asymmetric-error search: transformation = scaling AND backend = scipy AND
-    for a failing parameter the cost, properly re-minimised (do_fit repeated on the same object until it no longer improves) with that
-    parameter pinned at optimum + reported upper error, has risen by clearly less than 1: the search cut the profile where the scipy
-    re-minimisation of the other parameters had stopped short (profile too high), not where the true profile reaches 1."""
+    for a failing parameter the fit's own cost function, re-minimised over the other free parameters by an independent derivative-free
+    search (Nelder-Mead with a simplex of the size of the reported uncertainties) with that parameter pinned at optimum + reported upper
+    error, has risen by clearly less than 1: the search cut the profile where scipy's re-minimisation of the other parameters had stopped
+    short (profile too high), not where the true profile reaches 1."""
     if info["kind"] != "scaling" or info["minimizer"] != "scipy" or not bad_rows:
         return None
     try:
+        from scipy import optimize
+
         fit = tb.fit
+        fcn = fit._fitter._fcn_wrapper
         p0 = np.array(fit.parameter_values, dtype=float)
-        c0 = float(fit.cost_function_value)
+        err = np.array(fit.parameter_errors, dtype=float)
+        fixed = set(fit._fitter.fixed_parameters)
         i = bad_rows[0]
-        fit.fix_parameter(names_t[i], float(p0[i] + ae[i][1]))
-        best = np.inf
-        for _ in range(6):
-            fit.do_fit()
-            c = float(fit.cost_function_value)
-            if c > best - 1e-9:
-                break
-            best = c
-        rise = min(best, float(fit.cost_function_value)) - c0
-        fit.release_parameter(names_t[i])
-        fit.set_all_parameter_values(list(p0))
-        if np.isfinite(rise) and rise < 0.9:
+        others = [k for k, n in enumerate(names_t) if k != i and n not in fixed and np.isfinite(err[k]) and err[k] > 0]
+        c0 = float(fcn(*p0))
+
+        def g(u):
+            p = p0.copy()
+            p[i] = p0[i] + ae[i][1]
+            p[others] = u
+            v = float(fcn(*p))
+            return v if np.isfinite(v) else 1e300
+
+        if others:
+            x0 = p0[others]
+            simplex = np.vstack([x0] + [x0 + np.eye(len(others))[k] * err[others][k] for k in range(len(others))])
+            res = optimize.minimize(g, x0, method="Nelder-Mead", options={"initial_simplex": simplex, "xatol": 1e-6 * float(np.min(err[others])), "fatol": 1e-8, "maxiter": 4000})
+            best = float(res.fun)
+        else:
+            best = g(np.zeros(0))
+        fcn(*p0)  # write the optimum back into the graph
+        if np.isfinite(best) and best - c0 < 0.9:
             return KEY_SCIPY_MIN
     except Exception:
-        pass
-    # open finding: the generic (scipy) asymmetric-error search returns different multiples of sigma in different units although the
-    # symmetric uncertainties of the two fits agree (this point is only reached when they did): signature = scaling AND scipy AND the
-    # failing rows are free parameters with agreeing symmetric errors
-    return "C15/scipy-asymmetric-errors-change-with-the-unit"
+        return None
+    return None
 
 
 def classify_asym(info):
